@@ -147,8 +147,9 @@ ClassTable == <<
 >>
 
 (* Pairs of tokens of one group about which the statement is silent: both answers of == are accepted.       *)
-(* ScenarioID: prediction_id 1 ("v1") and [1] ("v4") are different Python values that denote the same id.   *)
-Either == {<<"ScenarioID", "behavior", {"v1", "v4"}>>}
+(* (ScenarioID prediction_id 1 vs [1] used to be listed; the constructor now normalises [1] to 1, so "v4" is  *)
+(* the genuine list [1, 2] and nothing is silent at the moment.)  Entries: <<class, group, {token, token}>>.   *)
+Either == {}
 
 (* ---- table access ---- *)
 Range(s)      == {s[i] : i \in DOMAIN s}
@@ -212,7 +213,10 @@ SpecialPairs == [
   \* cycle setter keeps `active`; `active` setter keeps the cycle; nothing leads out of / into "no cycle"
   TrafficLight_traffic_light_cycle |-> {<<"v1", "v2">>, <<"v2", "v1">>, <<"v1", "v3">>, <<"v3", "v1">>},
   \* add_planning_problem only adds: {} -> {1} -> {1, 2}
-  PlanningProblemSet_planning_problem_list |-> {<<"d", "v3">>, <<"v3", "v1">>} ]
+  PlanningProblemSet_planning_problem_list |-> {<<"d", "v3">>, <<"v3", "v1">>},
+  \* the constructor turns configuration_id None into 1 as soon as a behaviour is given, the attributes do not:
+  \* assigning a behaviour to an id that has none does not lead to a constructible valuation
+  ScenarioID_behavior |-> {<<a, b>> \in {"v1", "v2", "v3", "v4"} \X {"v1", "v2", "v3", "v4"} : a # b} ]
 
 SetPairs(c, g) ==
   LET k == c \o "_" \o g
@@ -233,6 +237,8 @@ Moved == [
   InitialState |-> StatePos, PMState |-> {"position"}, ExtendedPMState |-> StatePos, KSState |-> StatePos,
   KSTState |-> StatePos, STState |-> StatePos, STDState |-> StatePos, MBState |-> StatePos,
   LateralState |-> {"orientation"}, CustomState |-> {"position"},
+  \* inherit State.translate_rotate but have no spatial attribute: the identity, nothing to check
+  LongitudinalState |-> {}, InputState |-> {}, PMInputState |-> {}, LKSInputState |-> {},
   Trajectory |-> {"state_list"}, Occupancy |-> {"shape"}, TrajectoryPrediction |-> {"trajectory"},
   SetBasedPrediction |-> {"occupancy_set"},
   StaticObstacle |-> {"initial_state"}, DynamicObstacle |-> {"initial_state", "prediction"},
@@ -243,6 +249,12 @@ Moved == [
   LaneletNetwork |-> {"lanelets", "traffic_signs", "traffic_lights"},
   GoalRegion |-> {"state_list"}, PlanningProblem |-> {"initial_state", "goal_region"},
   PlanningProblemSet |-> {"planning_problem_list"}, Scenario |-> {"lanelet_network", "obstacles"} ]
+(* translate_rotate is not applicable (raises) when ALL these groups are given - recorded as a C05 finding:    *)
+(* PMState.orientation is a read-only property derived from velocity and velocity_y, and State.translate_rotate *)
+(* assigns to it (AttributeError: property 'orientation' of 'PMState' object has no setter)                     *)
+MoveBlockedBy == [PMState |-> {"velocity", "velocity_y"}]
+BlockGroups(c) == IF c \in DOMAIN MoveBlockedBy THEN MoveBlockedBy[c] ELSE {}
+MoveBlocked(c, v) == BlockGroups(c) # {} /\ \A g \in BlockGroups(c) : v[g] # "d"
 (* convert_to_2d *)
 Flat == [
   StopLine |-> {"start", "end"}, Lanelet |-> {"left_vertices", "center_vertices", "right_vertices", "stop_line"},
@@ -271,7 +283,7 @@ IsMutation(c, mk, a, b) ==
   CASE mk = "set"  -> /\ Cardinality(Differing(a, b)) = 1
                       /\ LET g == CHOOSE h \in Differing(a, b) : TRUE IN <<a[g], b[g]>> \in SetPairs(c, g)
                       /\ \A h \in DOMAIN a : h \in Differing(a, b) \/ a[h] = b[h]
-    [] mk \in {"move", "flat"} -> a = b /\ Displaced(c, mk, a)
+    [] mk \in {"move", "flat"} -> a = b /\ Displaced(c, mk, a) /\ ~(mk = "move" /\ MoveBlocked(c, a))
     [] OTHER -> FALSE
 
 (* ---- well-formedness of the table ---- *)
